@@ -484,6 +484,7 @@ func (h *c19Run) apply(f int, kind, content string) error {
 // times and reports whether the watcher's change count still has not moved.
 func (h *c19Run) neverDetected(initial int) bool {
 	for try := 0; try < 3; try++ {
+		wrote := 0
 		for f := range h.c.Files {
 			h.mu.Lock()
 			vs := h.vers[f]
@@ -493,10 +494,15 @@ func (h *c19Run) neverDetected(initial int) bool {
 				continue
 			}
 			v := h.addVersion(f, "rewrite", cur.Content, false, h.clk.Add(1))
-			_ = os.WriteFile(h.path(f), []byte(cur.Content), 0o644)
+			if os.WriteFile(h.path(f), []byte(cur.Content), 0o644) == nil {
+				wrote++
+			}
 			v.TE = h.clk.Add(1)
 		}
-		dl := time.Now().Add(time.Second)
+		if wrote == 0 {
+			return false // every file is removed: nothing to be detected
+		}
+		dl := time.Now().Add(2 * time.Second)
 		for h.env.Hook.changes() == initial && time.Now().Before(dl) {
 			time.Sleep(time.Millisecond)
 		}
@@ -1279,6 +1285,14 @@ func runC19Case(run *runner, idx int64, c *c19Case, raceMode bool) string {
 			run.violate(violation{Index: idx, Sig: fmt.Sprintf("C19:%s:changes-never-detected", c.Kind),
 				Summary: fmt.Sprintf("%d writes to the watched target %s (plus 3 rewrites of the final content) and the watcher logged no change at all; the initial version stays in effect", len(c.Steps), map[bool]string{true: "(relative spelling file://./...)", false: "(absolute)"}[c.Relative]),
 				Case:    c, Detail: map[string]any{"steps": len(c.Steps), "relative_target": c.Relative}})
+		case !seen && env.Hook.changes() > initialChanges && h.neverDetected(env.Hook.changes()):
+			// state based: the watcher followed the target earlier in this case, but
+			// neither the last step nor three more rewrites of the current content
+			// (two seconds each) produced another change event: it stopped following
+			verdict = "violation"
+			run.violate(violation{Index: idx, Sig: fmt.Sprintf("C19:%s:stopped-following", c.Kind),
+				Summary: fmt.Sprintf("the watcher logged %d change events during the history, but none for the last step nor for three further rewrites of the current content of every file: later versions never take effect", env.Hook.changes()-initialChanges),
+				Case:    c, Detail: map[string]any{"steps": len(c.Steps), "changes_logged": env.Hook.changes() - initialChanges}})
 		case !seen:
 			run.inconclusive(fmt.Sprintf("idx %d (%s/%s): the watcher never logged a change after the last step: file event not delivered", idx, c.Kind, c.Write))
 			run.count("progress_inconclusive", 1)
